@@ -712,3 +712,76 @@ func EPTwoOnePinned(t *rapid.T) (refchess.Pos, refchess.Move, bool) {
 	}
 	return p, m, false
 }
+
+// EPOnlyMotif: a position (engine-normalised en-passant field set) in which the side to move is not
+// in check and has few or no moves besides an en-passant capture: a cornered king, the capturing pawn
+// blocked, heavy enemy pieces around - the cases where stalemate detection rests on the en-passant rule.
+// ok reports whether an en-passant capture is pseudo-legal and no king move is legal.
+func EPOnlyMotif(t *rapid.T) (refchess.Pos, bool) {
+	for attempt := 0; attempt < 6; attempt++ {
+		var p refchess.Pos
+		f := draw(t, 0, 7, "file")
+		var nb []int
+		if f > 0 {
+			nb = append(nb, f-1)
+		}
+		if f < 7 {
+			nb = append(nb, f+1)
+		}
+		cf := nb[draw(t, 0, len(nb)-1, "capFile")]
+		p.Sq[48+f] = -P // black pawn about to push two squares
+		p.Sq[32+cf] = P // white capturer on its 5th rank
+		if chance(t, 2, 3, "blockCapturer") {
+			p.Sq[40+cf] = -int8(draw(t, N, Q, "blocker"))
+		}
+		// white king on the rim
+		var ks int
+		switch draw(t, 0, 3, "rim") {
+		case 0:
+			ks = draw(t, 0, 7, "kf")
+		case 1:
+			ks = 56 + draw(t, 0, 7, "kf")
+		case 2:
+			ks = 8 * draw(t, 0, 7, "kr")
+		default:
+			ks = 8*draw(t, 0, 7, "kr") + 7
+		}
+		if p.Sq[ks] != 0 || ks == 40+f || ks == 32+f {
+			continue
+		}
+		p.Sq[ks] = K
+		for i := draw(t, 2, 4, "heavy"); i > 0; i-- {
+			place(t, &p, -[]int8{Q, R, B, Q, R}[draw(t, 0, 4, "hk")])
+		}
+		ensureKings(t, &p)
+		p.Sq[40+f], p.Sq[32+f] = 0, 0
+		trimMaterial(&p)
+		p.White, p.EP, p.Half, p.Full = false, -1, 0, draw(t, 1, 60, "full")
+		if p.Valid() != nil {
+			continue
+		}
+		push := refchess.Move{From: 48 + f, To: 32 + f}
+		legalPush := false
+		for _, m := range p.Legal() {
+			legalPush = legalPush || m == push
+		}
+		if !legalPush {
+			continue
+		}
+		c := p.Make(push)
+		if c.InCheck(true) {
+			continue
+		}
+		kingMove := false
+		for _, m := range c.Legal() {
+			if m.From == ks {
+				kingMove = true
+			}
+		}
+		if kingMove {
+			continue
+		}
+		return c.NormEP(), true
+	}
+	return refchess.Pos{}, false
+}
